@@ -51,6 +51,34 @@ Proof.
   apply existsb_exists in H. destruct H as [x [Hx E]]. apply String.eqb_eq in E. subst; auto.
 Qed.
 
+(* the guards the models' transitions mirror, as source text: closeIfIdle's "in use" test,
+   idleStateLocked (can_take), forgetStreamID's close-on-idle, the reservation decrement, the
+   HTTP/3 CloseIdleConnections test, the HTTP/1.1 limits *)
+Definition required_guards : list string := [
+  "http2.ClientConn.closeIfIdle|len(cc.streams) > 0 || cc.streamsReserved > 0";
+  "http2.ClientConn.idleStateLocked|int64(len(cc.streams)+cc.streamsReserved+1) <= int64(cc.maxConcurrentStreams)";
+  "http2.ClientConn.idleStateLocked|cc.goAway == nil && !cc.closed && !cc.closing && maxConcurrentOkay && !cc.doNotReuse && int64(cc.nextStreamID)+2*int64(cc.pendingRequests) < math.MaxInt32 && !cc.tooIdleLocked()";
+  "http2.ClientConn.ReserveNewRequest|!st.canTakeNewRequest";
+  "http2.ClientConn.decrStreamReservationsLocked|cc.streamsReserved > 0";
+  "http2.ClientConn.forgetStreamID|closeOnIdle && cc.streamsReserved == 0 && len(cc.streams) == 0";
+  "http2.ClientConn.forgetStreamID|cc.singleUse || cc.doNotReuse || cc.t.DisableKeepAlives || cc.goAway != nil";
+  "http2.ClientConn.forgetStreamID|len(cc.streams) != slen-1";
+  "http3.RoundTripper.CloseIdleConnections|cl.useCount.Load() == 0";
+  "req.Transport.queueForDial|n < t.MaxConnsPerHost";
+  "req.Transport.queueForDial|t.MaxConnsPerHost <= 0";
+  "req.Transport.tryPutIdleConn|len(idles) >= t.maxIdleConnsPerHost()";
+  "req.Transport.tryPutIdleConn|t.MaxIdleConns != 0 && t.idleLRU.len() > t.MaxIdleConns";
+  "req.Transport.tryPutIdleConn|t.DisableKeepAlives || t.MaxIdleConnsPerHost < 0";
+  "req.Transport.tryPutIdleConn|t.closeIdle" ].
+
+Theorem guards_present : forall g, In g required_guards -> In g go_guards.
+Proof.
+  assert (H : forallb (fun g => existsb (String.eqb g) go_guards) required_guards = true)
+    by (vm_compute; reflexivity).
+  intros g Hg. rewrite forallb_forall in H. specialize (H g Hg).
+  apply existsb_exists in H. destruct H as [x [Hx E]]. apply String.eqb_eq in E. subst; auto.
+Qed.
+
 Theorem model_constants_agree :
   initial_max_concurrent = go_initialMaxConcurrentStreams /\
   default_max_idle_per_host = go_DefaultMaxIdleConnsPerHost /\
